@@ -46,13 +46,19 @@ def sym_blocklist():
 
 
 def sym_datagram():
-    form = choose(3, 'form')
+    """-> (bytes, genuine): arbitrary bytes in three forms, or a well-formed client hello as an honest client emits it"""
+    form = choose(4, 'form')
     if form == 0:
         n = choose(21, 'short_len')                      # shorter than a header, including empty
-        return rope.symbytes('d', n) if n else b''
+        return (rope.symbytes('d', n) if n else b''), False
     if form == 1:
-        return rope.symbytes('d', 20) + rope.blob('rest', 0, Packet.RECV_SIZE - 20)[0]
-    return rope.blob('opaque', 0, Packet.RECV_SIZE, declare=20)[0]
+        return rope.symbytes('d', 20) + rope.blob('rest', 0, Packet.RECV_SIZE - 20)[0], False
+    if form == 2:
+        return rope.blob('opaque', 0, Packet.RECV_SIZE, declare=20)[0], False
+    cl = conn.ClientServerConnection(('srv', 9))
+    cl.clock = proto.clock_at(100.0)
+    cl._sendClientHello()
+    return cl._encode_packet(cl._build_packet()), True
 
 
 def l111():
@@ -61,12 +67,15 @@ def l111():
     ctxt.setBlockList(bl)
     ts = loop.twisted_mod.TwistedServer(ctxt, ('0.0.0.0', 1), install_signals=False)
     ts.transport = loop.Transport()
-    raw = sym_datagram()
+    raw, genuine = sym_datagram()
     q0 = len(ts.thread.queue)
     try:
         ts.datagramReceived(raw, (host, symint('port', 1, 65535)))
     except Exception as ex:
         core.fail('the datagram entry point raised', error=type(ex).__name__)
+    if genuine and not blocked:
+        check(len(ts.thread.queue) == q0 + 1 and ts.thread.queue[-1][2] is raw,
+              'a well-formed datagram from an address that is not block-listed is handed to the server thread')
     if blocked:
         check(len(ts.thread.queue) == q0, 'a datagram from a block-listed address is discarded before any processing')
         check(ts.thread.cv_queue.notifies == 0, 'the loop is not even woken for a block-listed address')
@@ -108,7 +117,8 @@ def l115(n):
     ctxt = loop.new_ctxt(Tripwire(), None)
     bl, host, blocked = sym_blocklist()
     ctxt.setBlockList(bl)
-    inbox = [(sym_datagram() if k == 0 else rope.blob('later%d' % k, 0, Packet.RECV_SIZE, declare=20)[0],
+    first, genuine = sym_datagram()
+    inbox = [(first if k == 0 else rope.blob('later%d' % k, 0, Packet.RECV_SIZE, declare=20)[0],
               (host, symint('port%d' % k, 1, 65535))) for k in range(n)]
 
     class Sock:
@@ -151,6 +161,9 @@ def l115(n):
     th = FakeThread.instances[-1]
     if blocked:
         check(th.queue == [], 'datagrams from a block-listed address never reach the server thread')
+    elif genuine:
+        check(len(th.queue) >= 1 and th.queue[0][2] is first and th.started,
+              'a well-formed datagram from an address that is not block-listed is handed to the (started) server thread')
     check(srv.sock.sent == [], 'the receive loop never replies by itself')
     check(all(a[0] is host for a, h, d in th.queue), 'datagrams are queued under the address they came from')
 
